@@ -579,3 +579,700 @@ def _best_match_n(n):
 
 for _n in (0, 1, 2, 3):
     harness(PROP, MT_MOD + ':best_match', name='best_match[candidates=%d]' % _n, setup=_mediatypes_setup)(_best_match_n(_n))
+
+
+# ---------------------------------------------------------------------------
+# Handlers: ghost state of the cache-coherence argument
+
+
+class Ghost:
+    """data_epoch per Handlers object; every write to its `data` is logged with the call stack that made it."""
+
+    def __init__(self, v):
+        self.v = v
+        self.epochs = {}
+        self.keep = []
+        self.writes = []  # (owner, operation, functions active at the write)
+        self.clears = []  # (lru, owner's data_epoch at the clear)
+        self.lrus = []
+
+    def epoch(self, owner):
+        return self.epochs.get(id(owner), 0)
+
+    def set_epoch(self, owner, e):
+        self.keep.append(owner)
+        self.epochs[id(owner)] = e
+
+    def bump(self, owner, op):
+        self.set_epoch(owner, self.epoch(owner) + 1)
+        self.writes.append((owner, op, self.stack()))
+
+    def stack(self):
+        v = self.v
+        if not v.concrete:
+            return tuple(v.interp.active)
+        names = []
+        f = sys._getframe(2)
+        while f is not None:
+            names.append(f.f_code.co_qualname if hasattr(f.f_code, 'co_qualname') else f.f_code.co_name)
+            f = f.f_back
+        return tuple(reversed(names))
+
+
+class GDict(dict):
+    """The `data` dict of a Handlers object: a real dict whose every mutation bumps the owner's data_epoch."""
+
+    __pyvc_symbolic__ = True
+    __pyvc_stub__ = True
+
+    def __init__(self, ghost, owner, items=()):
+        dict.__init__(self, items)
+        self.g = ghost
+        self.owner = owner
+
+    def __setitem__(self, k, val):
+        dict.__setitem__(self, k, val)
+        self.g.bump(self.owner, 'data[k] = v')
+
+    def __delitem__(self, k):
+        dict.__delitem__(self, k)  # KeyError: no write
+        self.g.bump(self.owner, 'del data[k]')
+
+    def _mut(name):
+        def m(self, *a, **k):
+            try:
+                return getattr(dict, name)(self, *a, **k)
+            finally:
+                self.g.bump(self.owner, 'data.%s()' % name)
+
+        return m
+
+    pop = _mut('pop')
+    popitem = _mut('popitem')
+    clear = _mut('clear')
+    update = _mut('update')
+    setdefault = _mut('setdefault')
+    __ior__ = _mut('__ior__')
+    del _mut
+
+    def copy(self):
+        return dict(self)
+
+
+class WatchedFields(dict):
+    """Field record of an interpreted Handlers object: rebinding `data` is a write, and the new dict is observed too."""
+
+    def __init__(self, ghost, owner, init):
+        dict.__init__(self, init)
+        self.g = ghost
+        self.owner = owner
+
+    def __setitem__(self, k, val):
+        if k == 'data':
+            val = _observe(self.g, self.owner, val)
+            self.g.bump(self.owner, 'self.data = ...')
+        dict.__setitem__(self, k, val)
+
+
+def _observe(g, owner, val):
+    if isinstance(val, GDict):
+        if val.owner is not owner:
+            raise Unreached('the data dict of one Handlers object is installed in another one (aliasing)')
+        return val
+    if type(val) is not dict:
+        raise Unreached('Handlers.data rebound to %r' % (val,))
+    return GDict(g, owner, val)
+
+
+def watch(g, obj):
+    """Attach the ghost to an interpreted object (symbolic mode)."""
+    flds = obj.__dict__['_fields']
+    if not isinstance(flds, WatchedFields):
+        obj.__dict__['_fields'] = WatchedFields(g, obj, flds)
+    return obj
+
+
+def watched_class(v, g):
+    """Concrete replay: a throw-away subclass of the real Handlers whose attribute store observes `data`."""
+    base = v.real(HANDLERS)
+
+    def __setattr__(self, name, val):
+        if name == 'data':
+            val = _observe(g, self, val)
+            g.bump(self, 'self.data = ...')
+        object.__setattr__(self, name, val)
+
+    return type(base.__name__, (base,), {'__setattr__': __setattr__, '__module__': base.__module__})
+
+
+@stubclass
+class GhostLru:
+    """functools.lru_cache wrapper: memoises per argument tuple until cache_clear(); exceptions are not memoised.
+
+    Ghost: cache_epoch = the owner's data_epoch when the cache was last empty by construction (creation, cache_clear).
+    """
+
+    def __init__(self, g, owner, run=None):
+        self.g = g
+        self.owner = owner
+        self.run = run  # args, kwargs -> result of the wrapped function
+        self.memo = {}
+        self.cache_epoch = g.epoch(owner)
+        self.hits = 0
+        g.lrus.append(self)
+
+    def cache_clear(self):
+        self.memo.clear()
+        self.cache_epoch = self.g.epoch(self.owner)
+        self.g.clears.append((self, self.cache_epoch))
+
+    def __call__(self, *args, **kwargs):
+        key = (args, tuple(sorted(kwargs.items())))
+        if key in self.memo:
+            self.hits += 1
+            return self.memo[key]
+        r = self.run(args, kwargs)
+        self.memo[key] = r
+        return r
+
+
+class _LruDecorator:
+    __pyvc_symbolic__ = True
+
+
+def _lru_cache_model(I, *a, **k):
+    """functools.lru_cache(maxsize=..)(fn) for the nested resolver: the ghost wrapper above around the interpreted function."""
+    g = I.ctx.ghost.get('c11')
+    if g is None:
+        raise Unreached('lru_cache outside a Handlers harness')
+    dec = _LruDecorator()
+    g.keep.append(dec)
+
+    def decorate(interp, fn):
+        owner = fn.parent.lookup('self')
+        return GhostLru(g, owner, run=lambda args, kwargs: interp.call(fn, list(args), dict(kwargs)))
+
+    I.registry.decorators[id(dec)] = decorate
+    return dec
+
+
+def concrete_lru(g):
+    """Concrete replay: stands in for falcon.util.misc._lru_cache_for_simple_logic."""
+
+    def lru_cache(*a, **k):
+        def decorate(fn):
+            cells = dict(zip(fn.__code__.co_freevars, fn.__closure__ or ()))
+            owner = cells['self'].cell_contents
+            return GhostLru(g, owner, run=lambda args, kwargs: fn(*args, **kwargs))
+
+        return decorate
+
+    return lru_cache
+
+
+# ---------------------------------------------------------------------------
+# the mixin methods of the running interpreter's stdlib, interpreted from their real source
+
+STDLIB_METHODS = [
+    ('collections', 'UserDict', ['__init__', '__len__', '__getitem__', '__setitem__', '__delitem__', '__iter__', '__contains__']),
+    ('_collections_abc', 'MutableMapping', ['pop', 'popitem', 'clear', 'update', 'setdefault']),
+    ('_collections_abc', 'Mapping', ['get', '__contains__', 'keys', 'items', 'values']),
+]
+_STDLIB_CACHE = {}
+
+
+def _code_of(code, parts):
+    for p in parts:
+        nxt = [c for c in code.co_consts if hasattr(c, 'co_code') and c.co_name == p]
+        if not nxt:
+            return None
+        code = nxt[-1]
+    return code
+
+
+def _same_code(a, b):
+    def consts(c):
+        return tuple(x for x in c.co_consts if not hasattr(x, 'co_code'))
+
+    return a.co_code == b.co_code and a.co_names == b.co_names and a.co_varnames == b.co_varnames and consts(a) == consts(b)
+
+
+class _Mangle(ast.NodeTransformer):
+    """Private name mangling inside a class body (language reference 6.2.1)."""
+
+    def __init__(self, clsname):
+        self.prefix = '_' + clsname.lstrip('_')
+
+    def _m(self, name):
+        return self.prefix + name if name.startswith('__') and not name.endswith('__') else name
+
+    def visit_Attribute(self, n):
+        self.generic_visit(n)
+        n.attr = self._m(n.attr)
+        return n
+
+    def visit_Name(self, n):
+        n.id = self._m(n.id)
+        return n
+
+
+def stdlib_function(modname, clsname, name):
+    """(closure over the real source text, description, source-matches-loaded-code?) of a stdlib method."""
+    key = (modname, clsname, name)
+    if key in _STDLIB_CACHE:
+        return _STDLIB_CACHE[key]
+    import copy
+    import hashlib
+    import importlib
+
+    mod = importlib.import_module(modname)
+    cls = getattr(mod, clsname)
+    fn = cls.__dict__[name]
+    path = mod.__file__
+    with open(path, encoding='utf-8') as f:
+        src = f.read()
+    tree = ast.parse(src, path)
+    cnode = [n for n in tree.body if isinstance(n, ast.ClassDef) and n.name == clsname][-1]
+    fnode = [n for n in cnode.body if isinstance(n, ast.FunctionDef) and n.name == name][-1]
+    compiled = _code_of(compile(src, path, 'exec'), [clsname, name])
+    ok = compiled is not None and _same_code(compiled, fn.__code__) and fnode.lineno + len(fnode.decorator_list) >= fn.__code__.co_firstlineno >= fnode.lineno - len(fnode.decorator_list) - 1
+    seg = ast.get_source_segment(src, fnode) or ''
+    node = _Mangle(clsname).visit(copy.deepcopy(fnode))
+    cl = Closure(node, mod, '%s.%s' % (clsname, name), None, cls, modname)
+    cl.defaults = (list(fn.__defaults__ or ()), dict(fn.__kwdefaults__ or {}))
+    desc = {'function': '%s:%s.%s' % (modname, clsname, name), 'file': path, 'span': [fnode.lineno, fnode.end_lineno],
+            'sha256': hashlib.sha256(seg.encode()).hexdigest(), 'decorators': [], 'stdlib': sys.version.split()[0]}
+    _STDLIB_CACHE[key] = (cl, desc, ok, fn)
+    return _STDLIB_CACHE[key]
+
+
+def _interpret_stdlib(reg):
+    """Every listed stdlib method, when called on an interpreted object, is executed from its source by the same executor."""
+    mismatched = []
+    for modname, clsname, names in STDLIB_METHODS:
+        for name in names:
+            cl, desc, ok, fn = stdlib_function(modname, clsname, name)
+            if not ok:
+                mismatched.append(desc['function'])
+
+            def model(I, *a, _cl=cl, _desc=desc, **k):
+                fu = getattr(I.registry, 'functions_used', None)
+                if fu is None:
+                    fu = I.registry.functions_used = {}
+                fu[_desc['function']] = _desc
+                return I.invoke(_cl, list(a), dict(k))
+
+            reg.add_model(fn, model)
+    reg.stdlib_mismatch = mismatched
+
+
+def _handlers_setup(reg, ex):
+    import functools
+
+    _interpret_stdlib(reg)
+    reg.add_model(functools.lru_cache, _lru_cache_model)
+    reg.inline.update([HANDLERS + '.*', H_MOD + ':_best_match'])
+    for k in ('falcon.media.json:JSONHandler', 'falcon.media.multipart:MultipartFormHandler', 'falcon.media.urlencoded:URLEncodedFormHandler'):
+        reg.stubs[k + '.__init__'] = lambda I, self, *a, **kw: None  # the default handlers are opaque objects here
+
+    def new_obj(interp, obj):
+        g = interp.ctx.ghost.get('c11')
+        cls = obj._cls
+        if g is not None and isinstance(cls, type) and cls.__module__ == H_MOD and cls.__name__ == 'Handlers':
+            watch(g, obj)
+            g.keep.append(obj)
+
+    reg.obj_new_hook = new_obj
+
+
+@stubclass
+class Handler:
+    """An opaque media handler (a value of the mapping)."""
+
+    def __init__(self, name, sync=False):
+        self.name = name
+        if sync:
+            self._serialize_sync = Handler(name + '.serialize-sync')
+            self._deserialize_sync = Handler(name + '.deserialize-sync')
+
+    def __repr__(self):
+        return '<Handler %s>' % self.name
+
+
+KEYS = ['application/json', 'application/x-yaml', 'text/csv']  # distinct names; a mapping only compares keys for equality
+
+
+def ghost_of(v):
+    g = Ghost(v)
+    v.ctx.ghost['c11'] = g
+    return g
+
+
+def mk_handlers(v, g, entries, cached=None):
+    """A Handlers object in an arbitrary coherent state: cache_epoch == data_epoch == e0, resolver its own."""
+    if v.concrete:
+        cls = watched_class(v, g)
+        h = cls.__new__(cls)
+        object.__setattr__(h, 'data', GDict(g, h, entries))
+    else:
+        h = watch(g, v.obj(HANDLERS))
+        dict.__setitem__(h.__dict__['_fields'], 'data', GDict(g, h, entries))
+    e0 = v.int('epoch0', 0)
+    g.set_epoch(h, e0)
+    lru = GhostLru(g, h)
+    if v.concrete:
+        object.__setattr__(h, '_resolve', lru)
+    else:
+        dict.__setitem__(h.__dict__['_fields'], '_resolve', lru)
+    return h, lru, e0
+
+
+def method(v, o, name, *args, **kwargs):
+    """o.name(*args) through the real attribute lookup (inherited stdlib methods included) -> Outcome."""
+    if v.concrete:
+        try:
+            return Outcome(value=getattr(o, name)(*args, **kwargs))
+        except Exception as e:  # noqa: BLE001
+            return Outcome(exc=ExcVal(type(e), e.args, real=e))
+    try:
+        return Outcome(value=v.interp.call(v.interp.getattr(o, name), list(args), dict(kwargs)))
+    except PyRaise as e:
+        return Outcome(exc=e.exc)
+
+
+def check_coherent(v, g, h, what=''):
+    """The class invariant, clause by clause."""
+    data = v.get(h, 'data')
+    r = v.get(h, '_resolve')
+    v.check('ghost-observes-the-data-dict' + what, isinstance(data, GDict) and data.owner is h)
+    v.check('resolver-is-the-objects-own' + what, isinstance(r, GhostLru) and r.owner is h)
+    if isinstance(r, GhostLru):
+        v.check('cache-epoch-equals-data-epoch' + what, r.cache_epoch == g.epoch(h))
+
+
+VIA = (HANDLERS + '.__setitem__', HANDLERS + '.__delitem__')
+
+
+def writes_go_through_items(v, g, h):
+    """Frame: every write to h.data happened inside Handlers.__setitem__ / Handlers.__delitem__."""
+    if v.concrete:
+        names = ('Handlers.__setitem__', 'Handlers.__delitem__')
+    else:
+        names = VIA
+    return all(any(n in st for n in names) for owner, op, st in g.writes if owner is h)
+
+
+def same_items(d, want):
+    """dict `d` holds exactly the pairs of `want` (values by identity)."""
+    return isinstance(d, dict) and sorted(d) == sorted(want) and all(d[k] is want[k] for k in want)
+
+
+def _entries(v, n=None):
+    """0..2 existing entries under the first keys of KEYS."""
+    n = v.choose(3, 'entries') if n is None else n
+    return [(KEYS[i], Handler('old%d' % i)) for i in range(n)]
+
+
+def _pick_key(v, entries):
+    """An existing key or a new one (a dict distinguishes nothing else)."""
+    k = v.choose(len(entries) + 1, 'key')
+    return (entries[k][0], True) if k < len(entries) else (KEYS[len(entries)], False)
+
+
+@harness(PROP, HANDLERS + '.__setitem__', setup=_handlers_setup)
+def handlers_setitem(v):
+    g = ghost_of(v)
+    entries = _entries(v)
+    h, lru, e0 = mk_handlers(v, g, entries)
+    key, existed = _pick_key(v, entries)
+    new = Handler('new')
+    out = v.call(h, key, new)
+    v.check('no-exception', out.exc is None)
+    want = dict(entries)
+    want[key] = new
+    v.check('stores-the-handler-and-keeps-every-other-entry', same_items(v.get(h, 'data'), want))
+    v.check('mapping-was-written', g.epoch(h) != e0)
+    v.check('resolver-cache-cleared-after-the-write', len(g.clears) >= 1 and g.clears[-1][0] is lru and g.clears[-1][1] == g.epoch(h))
+    v.check('keeps-its-resolver', v.get(h, '_resolve') is lru)
+    check_coherent(v, g, h)
+    v.cover('replaced' if existed else 'added')
+
+
+@harness(PROP, HANDLERS + '.__delitem__', setup=_handlers_setup)
+def handlers_delitem(v):
+    g = ghost_of(v)
+    entries = _entries(v)
+    h, lru, e0 = mk_handlers(v, g, entries)
+    key, existed = _pick_key(v, entries)
+    out = v.call(h, key)
+    want = dict(entries)
+    if existed:
+        del want[key]
+        v.check('no-exception', out.exc is None)
+        v.check('mapping-was-written', g.epoch(h) != e0)
+        v.check('resolver-cache-cleared-after-the-write', len(g.clears) >= 1 and g.clears[-1][0] is lru and g.clears[-1][1] == g.epoch(h))
+        v.cover('deleted')
+    else:
+        v.check('missing-key-raises-key-error', out.exc is not None and out.exc.isa(KeyError))
+        v.cover('missing')
+    v.check('removes-exactly-that-entry', same_items(v.get(h, 'data'), want))
+    v.check('keeps-its-resolver', v.get(h, '_resolve') is lru)
+    check_coherent(v, g, h)
+
+
+def _construct(v, g, initial):
+    """Handlers(initial) -> Outcome whose value is the new object (both modes)."""
+    if v.concrete:
+        cls = watched_class(v, g)
+        with patched(v, 'falcon.util.misc', '_lru_cache_for_simple_logic', concrete_lru(g)):
+            try:
+                return Outcome(value=cls(initial))
+            except Exception as e:  # noqa: BLE001
+                return Outcome(exc=ExcVal(type(e), e.args, real=e))
+    h = watch(g, v.obj(HANDLERS))
+    out = v.call(h, initial, target=HANDLERS + '.__init__')
+    return Outcome(value=h) if out.exc is None else out
+
+
+DEFAULTS = {'application/json': 'falcon.media.json:JSONHandler', 'multipart/form-data': 'falcon.media.multipart:MultipartFormHandler',
+            'application/x-www-form-urlencoded': 'falcon.media.urlencoded:URLEncodedFormHandler'}
+
+
+def _is_instance(v, o, dotted):
+    cls = v.real(dotted)
+    return isinstance(o, cls) or getattr(o, '_cls', None) is cls
+
+
+@harness(PROP, HANDLERS + '.__init__', setup=_handlers_setup)
+def handlers_init(v):
+    g = ghost_of(v)
+    k = v.choose(4, 'initial')  # None, {}, one entry, two entries
+    initial = None if k == 0 else dict(_entries(v, k - 1))
+    out = _construct(v, g, initial)
+    v.check('no-exception', out.exc is None)
+    if out.exc is not None:
+        return
+    h = out.value
+    data = v.get(h, 'data')
+    if k >= 2:
+        v.check('holds-exactly-the-given-handlers', same_items(data, initial))
+        v.check('does-not-alias-the-given-mapping', data is not initial)
+        v.cover('given')
+    else:
+        v.check('defaults-are-json-multipart-urlencoded',
+                isinstance(data, dict) and sorted(data) == sorted(DEFAULTS) and all(_is_instance(v, data[t], DEFAULTS[t]) for t in DEFAULTS if t in data))
+        v.cover('defaults')
+    v.check('every-initial-entry-went-through-setitem', writes_go_through_items(v, g, h) or all(op == 'self.data = ...' or any(n in st for n in (VIA if not v.concrete else ('Handlers.__setitem__',))) for o, op, st in g.writes if o is h))
+    check_coherent(v, g, h)
+
+
+def _copy(v, g, h):
+    if v.concrete:
+        with patched(v, 'falcon.util.misc', '_lru_cache_for_simple_logic', concrete_lru(g)):
+            return v.call(h, target=HANDLERS + '.copy')
+    return v.call(h, target=HANDLERS + '.copy')
+
+
+@harness(PROP, HANDLERS + '.copy', setup=_handlers_setup)
+def handlers_copy(v):
+    g = ghost_of(v)
+    entries = _entries(v)
+    h, lru, e0 = mk_handlers(v, g, entries)
+    out = _copy(v, g, h)
+    v.check('no-exception', out.exc is None)
+    if out.exc is not None:
+        return
+    c = out.value
+    v.check('copy-is-a-distinct-object-of-the-same-type', c is not h and (type(c) is type(h) if v.concrete else getattr(c, '_cls', None) is h._cls))
+    if c is h:
+        return
+    # "The resulting copy contains the same keys and values, but it can be customized separately without affecting the original object."
+    v.check('copy-contains-the-same-keys-and-values', same_items(v.get(c, 'data'), dict(entries)))
+    v.check('copy-has-its-own-data-dict', v.get(c, 'data') is not v.get(h, 'data'))
+    v.check('copy-has-its-own-resolver', v.get(c, '_resolve') is not lru)
+    check_coherent(v, g, c, what='[copy]')
+    v.check('original-unchanged', same_items(v.get(h, 'data'), dict(entries)) and g.epoch(h) == e0 and v.get(h, '_resolve') is lru)
+    check_coherent(v, g, h, what='[original]')
+    v.cover('copied')
+
+
+# ---------------------------------------------------------------------------
+# the inherited mutators (MutableMapping mixins, executed from the stdlib's source)
+
+
+def _mixin_world(v):
+    g = ghost_of(v)
+    entries = _entries(v)
+    h, lru, e0 = mk_handlers(v, g, entries)
+    if not v.concrete:
+        v.check('stdlib-source-text-is-the-loaded-byte-code', not v.registry.stdlib_mismatch)
+    return g, entries, h, lru, e0
+
+
+def _mixin_post(v, g, h, lru, e0, want, changed):
+    v.check('mapping-content-as-documented-for-dict', same_items(v.get(h, 'data'), want))
+    v.check('writes-data-only-through-setitem-and-delitem', writes_go_through_items(v, g, h))
+    v.check('unchanged-mapping-is-not-written' if not changed else 'changed-mapping-was-written', (g.epoch(h) == e0) if not changed else (g.epoch(h) != e0))
+    v.check('keeps-its-resolver', v.get(h, '_resolve') is lru)
+    check_coherent(v, g, h)
+
+
+@harness(PROP, HANDLERS + '.pop', setup=_handlers_setup)
+def handlers_pop(v):
+    g, entries, h, lru, e0 = _mixin_world(v)
+    key, existed = _pick_key(v, entries)
+    has_default = bool(v.choose(2, 'default-given'))
+    default = Handler('default')
+    out = method(v, h, 'pop', key, default) if has_default else method(v, h, 'pop', key)
+    want = dict(entries)
+    if existed:
+        v.check('returns-the-removed-handler', out.exc is None and out.value is want[key])
+        del want[key]
+        v.cover('popped')
+    elif has_default:
+        v.check('missing-key-returns-the-default', out.exc is None and out.value is default)
+    else:
+        v.check('missing-key-raises-key-error', out.exc is not None and out.exc.isa(KeyError))
+    _mixin_post(v, g, h, lru, e0, want, existed)
+
+
+@harness(PROP, HANDLERS + '.popitem', setup=_handlers_setup)
+def handlers_popitem(v):
+    g, entries, h, lru, e0 = _mixin_world(v)
+    out = method(v, h, 'popitem')
+    want = dict(entries)
+    if entries:
+        ok = out.exc is None and isinstance(out.value, tuple) and len(out.value) == 2 and out.value[0] in want and out.value[1] is want[out.value[0]]
+        v.check('returns-a-pair-of-the-mapping', ok)
+        if not ok:
+            return
+        del want[out.value[0]]
+        v.cover('popped')
+    else:
+        v.check('empty-mapping-raises-key-error', out.exc is not None and out.exc.isa(KeyError))
+    _mixin_post(v, g, h, lru, e0, want, bool(entries))
+
+
+@harness(PROP, HANDLERS + '.clear', setup=_handlers_setup)
+def handlers_clear(v):
+    g, entries, h, lru, e0 = _mixin_world(v)
+    out = method(v, h, 'clear')
+    v.check('no-exception', out.exc is None)
+    _mixin_post(v, g, h, lru, e0, {}, bool(entries))
+    v.cover('cleared')
+
+
+@harness(PROP, HANDLERS + '.update', setup=_handlers_setup)
+def handlers_update(v):
+    g, entries, h, lru, e0 = _mixin_world(v)
+    shape = v.choose(4, 'other')  # a dict, a list of pairs, keyword arguments, another Handlers-like mapping with keys()
+    n = v.choose(3, 'other-size')
+    first = v.choose(2, 'other-overlaps') if entries and n else 0
+    keys = ([KEYS[0]] if first else []) + [k for k in reversed(KEYS) if k not in [e[0] for e in entries]]
+    pairs = [(keys[i], Handler('upd%d' % i)) for i in range(min(n, len(keys)))]
+    if shape == 0:
+        out = method(v, h, 'update', dict(pairs))
+    elif shape == 1:
+        out = method(v, h, 'update', list(pairs))
+    elif shape == 2:
+        kw = {'kw%d' % i: p[1] for i, p in enumerate(pairs)}
+        pairs = list(kw.items())
+        out = method(v, h, 'update', **kw)
+    else:
+        out = method(v, h, 'update', KeysOnly(dict(pairs)))
+    v.check('no-exception', out.exc is None)
+    want = dict(entries)
+    want.update(dict(pairs))
+    _mixin_post(v, g, h, lru, e0, want, bool(pairs))
+    v.cover('updated')
+
+
+@stubclass
+class KeysOnly:
+    """Not a Mapping, but has keys() and item access (the second branch of MutableMapping.update)."""
+
+    def __init__(self, d):
+        self.d = d
+
+    def keys(self):
+        return list(self.d)
+
+    def __getitem__(self, k):
+        return self.d[k]
+
+    def __pyvc_getitem__(self, k):
+        return self.d[k]
+
+
+@harness(PROP, HANDLERS + '.setdefault', setup=_handlers_setup)
+def handlers_setdefault(v):
+    g, entries, h, lru, e0 = _mixin_world(v)
+    key, existed = _pick_key(v, entries)
+    default = Handler('default')
+    out = method(v, h, 'setdefault', key, default)
+    want = dict(entries)
+    if existed:
+        v.check('existing-key-returns-its-handler', out.exc is None and out.value is want[key])
+    else:
+        want[key] = default
+        v.check('missing-key-stores-and-returns-the-default', out.exc is None and out.value is default)
+        v.cover('stored')
+    _mixin_post(v, g, h, lru, e0, want, not existed)
+
+
+def _stores_to_data(fnode):
+    """Syntactic: does this method store to / delete from / rebind `<x>.data`, or call a mutator on it?"""
+    hits = []
+    for n in ast.walk(fnode):
+        tgts = []
+        if isinstance(n, ast.Assign):
+            tgts = n.targets
+        elif isinstance(n, (ast.AugAssign, ast.AnnAssign)):
+            tgts = [n.target]
+        elif isinstance(n, ast.Delete):
+            tgts = n.targets
+        for t in tgts:
+            base = t.value if isinstance(t, ast.Subscript) else t
+            if isinstance(base, ast.Attribute) and base.attr == 'data':
+                hits.append(ast.unparse(t))
+            if isinstance(t, ast.Subscript) and isinstance(t.slice, ast.Constant) and t.slice.value == 'data':
+                hits.append(ast.unparse(t))
+        if isinstance(n, ast.Call) and isinstance(n.func, ast.Attribute) and isinstance(n.func.value, ast.Attribute) and n.func.value.attr == 'data' \
+                and n.func.attr in ('pop', 'popitem', 'clear', 'update', 'setdefault', '__setitem__', '__delitem__'):
+            hits.append(ast.unparse(n.func))
+    return hits
+
+
+# methods of the UserDict / MutableMapping / Mapping family that touch `.data` directly, and why each is harmless or out of scope
+DIRECT_WRITERS = {
+    'UserDict.__init__': 'self.data = {} on a fresh object, then update() through __setitem__ (proved: Handlers.__init__)',
+    'UserDict.__setitem__': 'only reached through Handlers.__setitem__ (super call), which clears the cache',
+    'UserDict.__delitem__': 'only reached through Handlers.__delitem__ (super call), which clears the cache',
+    'UserDict.__ior__': 'BOUNDARY: `handlers |= other` writes self.data directly and bypasses Handlers.__setitem__; `|=` is not in the operation list of the property',
+    'UserDict.__copy__': 'copy.copy(handlers): builds a new object sharing _resolve with the original -- not in the operation list (Handlers.copy is)',
+    'UserDict.copy': 'overridden by Handlers.copy',
+}
+
+
+@harness(PROP, HANDLERS + '.__ior__', name='userdict_direct_writers')
+def userdict_direct_writers(v):
+    """Syntactic scan of the running stdlib: which inherited methods write `.data` without going through self[key]."""
+    import importlib
+
+    found = {}
+    for modname, clsname in (('collections', 'UserDict'), ('_collections_abc', 'MutableMapping'), ('_collections_abc', 'Mapping'),
+                             ('_collections_abc', 'Collection'), ('_collections_abc', 'Sized'), ('_collections_abc', 'Iterable'), ('_collections_abc', 'Container')):
+        mod = importlib.import_module(modname)
+        with open(mod.__file__, encoding='utf-8') as f:
+            tree = ast.parse(f.read())
+        cnode = [n for n in tree.body if isinstance(n, ast.ClassDef) and n.name == clsname][-1]
+        for fn in cnode.body:
+            if isinstance(fn, ast.FunctionDef):
+                hits = _stores_to_data(fn)
+                if hits:
+                    found['%s.%s' % (clsname, fn.name)] = hits
+    real = v.real(HANDLERS)
+    v.check('handlers-inherits-only-from-userdict', [c.__name__ for c in real.__mro__] == ['Handlers', 'UserDict', 'MutableMapping', 'Mapping', 'Collection', 'Sized', 'Iterable', 'Container', 'object'])
+    v.check('direct-writers-of-data-in-the-stdlib-are-the-catalogued-ones', sorted(found) == sorted(DIRECT_WRITERS))
+    v.check('handlers-overrides-the-two-item-writers-and-copy', all(n in real.__dict__ for n in ('__setitem__', '__delitem__', 'copy')))
+    v.cover('scanned')
